@@ -234,12 +234,41 @@ def run(chk):
             dis.append(dict(input=C.jsonable(case), impl=C.jsonable(arr), model="element-wise scalar calls: %s" % C.jsonable(sc)))
     chk.correspondence("Pk array form == map of the scalar form (1e-9 + rounding amplification; theorem C12_array_pointwise)", n_ar, dis,
                        elements=nel)
+    if chk.tier == "thorough":
+        interval_goals(chk, [c for c in cases if c["m2"] > c["m1"]], impl, cases)
     chk.trusted += [
         "translator harness/gen_formulas.py (python ast -> Gallina) for the two branch expressions of masses.Pk",
         "FloatFun.v pow/ln (validated against libm; compared at 1e-9 relative + rounding amplification)",
         "correspondence harness harness/props/C12.py; decimal (60 digit) reference integral in the oracle",
         "np.finfo(float).resolution read from numpy at run time (1e-15)",
     ]
+
+
+def interval_goals(chk, sel, impl, cases):
+    """thorough tier: for sampled well-conditioned inputs the value the IMPLEMENTATION returned is certified, by the
+    `interval` tactic, to be within 1e-9 of the REAL closed form the theorems are about (this also validates FloatFun)."""
+    import os
+    from fractions import Fraction
+
+    def q(x):
+        fr = Fraction(float(x))
+        return "(%d / %d)" % (fr.numerator, fr.denominator) if fr.denominator != 1 else "(%d)" % fr.numerator
+    idx = {id(c): i for i, c in enumerate(cases)}
+    good = [c for c in sel if not math.isnan(impl[idx[id(c)]]) and amp(c["a"], c["k"], c["m1"], c["m2"]) < 1e3][:60]
+    path = os.path.join(C.GEN, "PkInterval.v")
+    with open(path, "w") as f:
+        f.write("(* generated: implementation outputs vs the real closed form -- do not edit *)\nFrom Coq Require Import Reals Lra.\n"
+                "From Interval Require Import Tactic.\nFrom SSP Require Import Num Model.Pk Proofs.PkProofs.\nLocal Open Scope R_scope.\n")
+        for n, c in enumerate(good):
+            v = impl[idx[id(c)]]
+            logc = (c["a"] + c["k"] == 0)
+            f.write("Lemma pk_case_%d : forall J, Rabs (Pk_raw (O:=R_ops J) %s %s %s %s - %s) <= 1 / 1000000000 * Rabs %s.\n" % (
+                n, q(c["a"]), q(c["k"]), q(c["m1"]), q(c["m2"]), q(v), q(v)))
+            f.write("Proof. intros J. rewrite (Pk_raw_Pint J) by lra. unfold Pint. destruct (Req_EM_T _ 0) as [E|E]; [%s|%s]. Qed.\n" % (
+                "interval with (i_prec 120)" if logc else "exfalso; lra", "exfalso; apply E; lra" if logc else "interval with (i_prec 120)"))
+    rc, out, err = C.coqc(path, timeout=1800)
+    chk.oblige("[gen] %d implementation outputs certified within 1e-9 of the real closed form Pk_raw by the interval tactic" % len(good),
+               rc == 0, (err or out)[-400:] if rc else "")
 
 
 def replay(chk, payload):
